@@ -31,8 +31,8 @@ BOUNDS = {'quick': {'max_n': 150, 'l_max_2d': 6, 'l_max_3d': 4},
 
 def cases(tier, seed):
     b = BOUNDS[tier]
-    out = F.configs(b['max_n'], F.CLASSES_2D, l_max=b['l_max_2d'])
-    out += F.configs(b['max_n'], F.CLASSES_3D, l_max=b['l_max_3d'])
+    out = F.configs(b['max_n'], F.CLASSES_2D, l_max=b['l_max_2d'], used=True)
+    out += F.configs(b['max_n'], F.CLASSES_3D, l_max=b['l_max_3d'], used=True)
     return out
 
 
@@ -41,7 +41,8 @@ def key_of(cfg, kind, **kw):
     k = {'kind': kind, 'cls': cfg['cls'], 'size': list(cfg['size']),
          'square': len(set(cfg['size'])) == 1,
          'deformation': d[0] if d else None,
-         'axis': (d[1].get('deformation_axis', 'default') if d else None)}
+         'axis': (d[1].get('deformation_axis', 'default') if d else None),
+         'object': 'used' if cfg.get('pre') else 'fresh'}
     k.update(kw)
     return k
 
